@@ -236,6 +236,17 @@ theorem C08_fixsigns_ref_normal_form {S : Services α} (hS : S.Lawful) (K other 
   · intro n hn h1 m hm hmn
     exact hal n (by rw [hN]; exact hn) h1 m (by rw [hN]; exact hm) hmn
 
+/-- The normal form is optimal: after `fixsigns(other)`, for every component `r` of the reference,
+the sign scores of ANY even number of distinct modes add up to a non-negative number — so no
+further sign change that keeps the tensor (an even number of flipped columns in component `r`)
+can raise the sum `Σ_n K'_n[:, r] · B_n[:, r]` of the correlations with the reference. -/
+theorem C08_fixsigns_ref_optimal {S : Services α} (hS : S.Lawful) (K other : Ktensor α) {K' B : Ktensor α}
+    (h : fixsignsRef S K other = .ok K') (hB : normalize S other none false .two none = .ok B)
+    (r : Nat) (hr : r < other.ncomp) (F : List Nat) (hnd : F.Nodup) (hF : ∀ n ∈ F, n < K.factors.length)
+    (hev : F.length % 2 = 0) : 0 ≤ (F.map (refScore K' B r)).sum := by
+  have hN := (fixsignsRef_reparam hS K other h).ndims
+  exact (fixsignsRef_aligned hS K other h hB r hr).sum_nonneg F hnd (fun n hn => by rw [hN]; exact hF n hn) hev
+
 /-- When the number of modes of component `r` that are negatively correlated with the reference
 (receiver and reference both normalised, as the code does first) is even, no mode is negatively
 correlated afterwards. -/
